@@ -715,16 +715,15 @@ static int32_t tls13CheckHsState(ssl_t *ssl,
     }
     /*
       The server may send a NewSessionTicket at any time after
-      it has received the client's Finished message.
-      In our state machine, there are two allowed states for this:
-      - SSL_HS_DONE (after having received and sent Finished)
-      - SSL_HS_TLS_1_3_WAIT_FINISHED (after having sent our Finished,
-      but before having received the server Finished.)
+      it has received the client's Finished message, that is, after
+      we have received and verified the server's Finished: the only
+      state for it is SSL_HS_DONE.  (A client never sends its Finished
+      before the server's, so WAIT_FINISHED is still inside the
+      server's first flight.)
     */
     else if (!MATRIX_IS_SERVER(ssl) &&
             msg == SSL_HS_NEW_SESSION_TICKET &&
-            (ssl->hsState == SSL_HS_DONE ||
-            ssl->hsState == SSL_HS_TLS_1_3_WAIT_FINISHED))
+            ssl->hsState == SSL_HS_DONE)
     {
         return PS_SUCCESS;
     }
